@@ -243,3 +243,7 @@ impl Drop for FileWriter<'_> {
         }
     }
 }
+
+// verification hook (compiled only under `cargo kani`, see /verif/MANIFEST.json hooks)
+#[cfg(kani)]
+include!(concat!(env!("VERIF_KANI_INC"), "/fs_fs.rs"));
